@@ -1,0 +1,112 @@
+//! Verification hooks (compiled only with `--cfg getong_stateright_verif`): a facade over
+//! crate-private items and instrumentation points. Nothing here changes behaviour unless a
+//! callback or a perturbation seed is installed.
+
+use crate::job_market::JobBroker;
+use std::collections::VecDeque;
+use std::hash::{Hash, Hasher};
+use std::sync::atomic::{AtomicU64, Ordering};
+use std::sync::{Arc, RwLock};
+
+/// The fingerprint the checkers use to identify a state.
+pub fn fingerprint<T: Hash>(value: &T) -> u64 {
+    crate::fingerprint(value).get()
+}
+
+/// The hash `HashableHashSet`/`HashableHashMap` compute for one element (stable inner hasher).
+pub fn stable_hash<T: Hash>(value: &T) -> u64 {
+    let mut hasher = crate::stable::hasher();
+    value.hash(&mut hasher);
+    hasher.finish()
+}
+
+/// Events of the job market that are otherwise unobservable without sleeping.
+#[derive(Clone, Copy, Debug, PartialEq, Eq)]
+pub enum MarketEvent {
+    /// a worker is about to wait on the condition variable (still holding the lock)
+    Park,
+    /// a worker returned from the wait (holding the lock again)
+    Wake,
+}
+
+type Callback = Arc<dyn Fn(MarketEvent) + Send + Sync>;
+static MARKET_CALLBACK: RwLock<Option<Callback>> = RwLock::new(None);
+
+pub fn set_market_callback(cb: Option<Callback>) {
+    *MARKET_CALLBACK.write().unwrap() = cb;
+}
+
+pub(crate) fn market_event(ev: MarketEvent) {
+    let cb = MARKET_CALLBACK.read().unwrap().clone();
+    if let Some(cb) = cb {
+        cb(ev);
+    }
+}
+
+/// Facade over the crate-private `JobBroker`.
+pub struct Market<Job>(JobBroker<Job>);
+
+impl<Job: Send + 'static> Market<Job> {
+    pub fn new(thread_count: usize, close_at: Option<std::time::SystemTime>) -> Self {
+        Market(JobBroker::new(thread_count, close_at))
+    }
+}
+impl<Job> Market<Job> {
+    pub fn pop(&mut self) -> VecDeque<Job> {
+        self.0.pop()
+    }
+    pub fn push(&mut self, jobs: VecDeque<Job>) {
+        self.0.push(jobs)
+    }
+    pub fn split_and_push(&mut self, jobs: &mut VecDeque<Job>) {
+        self.0.split_and_push(jobs)
+    }
+    pub fn is_closed(&self) -> bool {
+        self.0.is_closed()
+    }
+    pub fn is_shut_down(&self) -> bool {
+        self.0.is_shut_down()
+    }
+}
+impl<Job> Clone for Market<Job> {
+    fn clone(&self) -> Self {
+        Market(self.0.clone())
+    }
+}
+
+/// Schedule perturbation: 0 = off. Otherwise worker threads yield / pause pseudo-randomly at
+/// the instrumented synchronisation points.
+static PERTURB_SEED: AtomicU64 = AtomicU64::new(0);
+
+pub fn set_perturbation(seed: u64) {
+    PERTURB_SEED.store(seed, Ordering::Relaxed);
+}
+
+thread_local! {
+    static LOCAL_RNG: std::cell::Cell<u64> = const { std::cell::Cell::new(0) };
+}
+
+pub(crate) fn yield_point(site: u64) {
+    let seed = PERTURB_SEED.load(Ordering::Relaxed);
+    if seed == 0 {
+        return;
+    }
+    LOCAL_RNG.with(|c| {
+        let mut x = c.get();
+        if x == 0 {
+            let mut h = std::collections::hash_map::DefaultHasher::new();
+            std::thread::current().id().hash(&mut h);
+            x = (h.finish() ^ seed) | 1;
+        }
+        x ^= x << 13;
+        x ^= x >> 7;
+        x ^= x << 17;
+        c.set(x);
+        let r = x.wrapping_add(site);
+        if r % 4 == 0 {
+            std::thread::yield_now();
+        } else if r % 97 == 0 {
+            std::thread::sleep(std::time::Duration::from_micros(50));
+        }
+    });
+}
